@@ -66,3 +66,35 @@ func ZZ_C18_Deferred() {
 	}
 	zz.Reach("end")
 }
+
+// ZZ_C18_DynamicVars: two dependencies run concurrently, each (symbolically) with a
+// task-level dynamic variable, optionally after a global one was resolved on the main
+// goroutine: the compiler's cache of dynamic variables is shared by both.
+func ZZ_C18_DynamicVars() {
+	probe := zzCmd{}
+	g := &zzGraph{Tasks: []zzTask{
+		{Name: "R", Deps: []string{"A", "B"}},
+		{Name: "A", Cmds: []zzCmd{probe}},
+		{Name: "B", Cmds: []zzCmd{probe}},
+	}}
+	tf := g.build(func(string) bool { return false })
+	sh := func(text string) ast.Var { s := text; return ast.Var{Sh: &s} }
+	if zz.Bool("global_dynamic_var") {
+		tf.Vars.Set("G", sh("echo g"))
+	}
+	same := zz.Bool("both_also_share_one_command")
+	for _, n := range []string{"A", "B"} {
+		t, _ := tf.Tasks.Get(n)
+		if zz.Bool("dynamic_var_in_" + n) {
+			t.Vars.Set("WHO", sh("echo "+n))
+		}
+		if same {
+			t.Vars.Set("SAME", sh("echo same"))
+		}
+	}
+	_, _ = zzExec(g, tf, zzRunOpts{}, "R")
+	if zz.Twin() {
+		zz.Assert(false, "twin")
+	}
+	zz.Reach("end")
+}
